@@ -518,6 +518,10 @@ Definition markers_wf : bool :=
     && forallb (fun m => negb (text_eqb (mstr asc m) (mstr asc SC))) [SF;CF;SL;ERR;CC]
     && forallb (fun m => negb (all_space (mstr asc m))) [SF;CF;SL;SCX;SC;SCODE]
     && forallb (fun m => all_space (mstr asc m)) [CC;ERR]) [true;false]
+  (* unicode mode: the alternatives at one column are pairwise different strings *)
+  && forallb (fun p => negb (text_eqb (mstr false (fst p)) (mstr false (snd p))))
+       [(SF,CF);(SF,SL);(CF,SL);(SF,ERR);(CF,ERR);(SL,ERR);
+        (SCX,CCX);(SCX,SCC);(SCX,SCODE);(CCX,SCC);(CCX,SCODE);(SCC,SCODE);(SC,CC)]
   && forallb (fun m => forallb (fun c => N.ltb c 128) (mstr true m)) [SF;CF;SL;SCX;CCX;SCC;SCODE;SC;CC;ERR;CCI].
 
 Lemma markers_wf_ok : markers_wf = true.
